@@ -269,6 +269,29 @@ theorem failing_source_never_ok (p : Plan) (hwf : p.WF)
 
 example : ({ files := [⟨2, false⟩, ⟨1, true⟩], mpMT := true } : Plan).files.any (·.fails) = true := by decide
 
+/-- F7a: with the sniffing buffer filled by `io.ReadFull` (window `w`), a source that fails within the
+window fails BEFORE the part header is written: the writer's script for that file is the failing
+read alone. -/
+theorem readfull_failure_precedes_the_part_header (w : Nat) (s : Src) (hf : s.fails = true) (hr : s.reads < w) :
+    fileScriptW true w s = [.fail] := by
+  simp [fileScriptW, hf, hr]
+
+example : fileScript ⟨3, true⟩ = [.fail] ∧ fileScript ⟨3, false⟩ = [.w, .w] ∧ fileScript ⟨0, false⟩ = [.w] := by decide
+
+/-- F7b: whichever way the sniffing buffer is filled, the script of a failing file ends with its
+failing read, and the script of a healthy file has none: the writer never drops a failure and never
+invents one. -/
+theorem file_script_keeps_the_failure (full : Bool) (w : Nat) (s : Src) :
+    (s.fails = true → (fileScriptW full w s).getLast? = some .fail) ∧
+    (s.fails = false → hasFail (fileScriptW full w s) = false) := by
+  constructor
+  · intro hf
+    simp only [fileScriptW, hf]
+    (repeat' split) <;> simp_all [List.getLast?_append, List.getLast?_cons_cons, getLast?_cons_snoc]
+  · intro hf
+    simp only [fileScriptW, hf, hasFail]
+    (repeat' split) <;> simp_all
+
 /-- F8: faults that certainly strike are never swallowed: no execution returns `ok` under a plan
 with a writer / producer / authentication / URL error, a failing source, a transport error before
 the body, a peer that never answers, a reader error, or a body that does not end with EOF while
